@@ -80,6 +80,17 @@ def confusion (pred truth : List L) : Option (List L × List (List Nat)) :=
   else
     let cs := classes pred truth
     some (cs, countLoop cs (pred.zip truth))
+
+/-- `receiver.confusion_matrix(&truth)` for a receiver whose `Labels::label_set()` is `lp` (an
+array recomputes it from its elements, so `lp` has the members of `pred` and this is `confusion`;
+`CountedTargets` answers with the counts cached at construction, which `as_targets_mut` does not
+refresh): the class list is built from `lp` and the labels of `truth`, and the counting loop skips
+every pair with a label outside it (`flatten`) -/
+def confusionWith (lp pred truth : List L) : Option (List L × List (List Nat)) :=
+  if pred.length ≠ truth.length then none
+  else
+    let cs := classes lp truth
+    some (cs, countLoop cs (pred.zip truth))
 end Labels
 
 def rowSum (m : List (List Nat)) (i : Nat) : Nat := (m.getD i []).sum
